@@ -185,8 +185,20 @@ func checkShift(c shiftCase) (h.Info, error) {
 	if want := rc.Compressed(rc.BaseMul(k)); !bytes.Equal(pub.Bytes(), want) {
 		return info, fmt.Errorf("Public() of %x = %x, reference %x", k, pub.Bytes(), want)
 	}
-	ps, perr := priv.Shift(append([]byte{}, c.Shift...))
-	qs, qerr := pub.Shift(append([]byte{}, c.Shift...))
+	// one caller buffer holds the shift for both calls (I_L is computed once and used on both sides): it is
+	// only read, and nothing that comes back lives in it
+	shared := append(make([]byte, 0, 64), c.Shift...)
+	ps, perr := priv.Shift(shared)
+	if !bytes.Equal(shared, c.Shift) {
+		return info, fmt.Errorf("k=%x shift=%x [%s]: private Shift changed the caller's shift bytes to %x", k, []byte(c.Shift), c.Corner, shared)
+	}
+	qs, qerr := pub.Shift(shared)
+	if !bytes.Equal(shared, c.Shift) {
+		return info, fmt.Errorf("k=%x shift=%x [%s]: public Shift changed the caller's shift bytes to %x", k, []byte(c.Shift), c.Corner, shared)
+	}
+	for i := range shared {
+		shared[i] = 0xee
+	}
 	pInv, qInv := errors.Is(perr, slip10.ErrInvalidKey), errors.Is(qerr, slip10.ErrInvalidKey)
 	if (perr != nil && !pInv) || (qerr != nil && !qInv) {
 		return info, fmt.Errorf("Shift returned an error other than ErrInvalidKey: private %v, public %v", perr, qerr)
